@@ -2,7 +2,7 @@
 import re
 import sympy
 
-from .. import facts, ev, nf, quant, shapes, cg, dims
+from .. import facts, ev, nf, quant, shapes, cg, dims, errdom
 from ..facts import short, strip_cvref
 from ..frontend import NUMERIC
 
@@ -88,12 +88,14 @@ def run(chk):
                      "Magnitude, component accessors, scalar x direction constructors of every vector quantity")
     chk.rule("R1", "every constructor/mutator/producer of a direction leaves its stored vector zero, a copy of a direction's vector, or the "
                    "normalisation (|c|^2 > 0 ? c/|c| : 0) of the input components in their slots")
+    chk.rule("R4", "a-priori error of the normalisation step (standard model): every stored component of a non-zero direction is within 4 u of c_i/|c|, hence the length is within four ulps of one")
     chk.rule("R1w", "only Direction/PlanarDirection and their Dimensionless bases write the stored member; no member hands out a mutable reference or pointer to it")
     chk.rule("R3", "for each vector quantity: Magnitude() has the scalar type of the same unit type and value sqrt(sum of squares); x/y/z return that type "
                    "with the matching slot; Q(scalar, direction) = scalar.value * direction slot-wise; Direction() normalises the stored vector")
-    chk.assumptions += ["the 'length one to within four ulps' and 'few ulps' recomposition clauses are NOT decided; the formulas they depend on are",
+    chk.assumptions += ["the 'length one to within four ulps' clause is decided by R4's a-priori bound (first-order standard model, no overflow/underflow); the few-ulp recomposition clause follows from it plus one multiplication and is not separately bounded",
                         "squared length neither overflows nor underflows"]
     n_paths = n_q = 0
+    norm_worst = {}
     for T in NUMERIC:
         F = facts.load(T, chk.tier)
         inv = quant.inventory(F)
@@ -144,6 +146,32 @@ def run(chk):
                     elif k == "normalised" and max_degree(slots) > 2 and f["sname"] != "Cross":
                         chk.violated("R1", sig, "an intermediate of the normalisation grows with power %s of the input length: it overflows/underflows although the squared length does not" % max_degree(slots), loc)
                     elif k == "normalised":
+                        # R4: error of the normalisation step itself, numerators taken as exact inputs
+                        try:
+                            mapping = {}
+                            for j, c in enumerate(detail):
+                                if c != ev.ZERO:
+                                    mapping[c] = ("leaf", "c%d" % j)
+                                    mapping[strip_cast(c)] = ("leaf", "c%d" % j)
+                            bounds = []
+                            for s_ in slots:
+                                t2 = errdom.subst(ev.assume(s_, s_[1], True), mapping)
+                                if not ev.leaves(t2) <= {"c%d" % j for j in range(len(detail))}:
+                                    bounds = None
+                                    break
+                                b, _sg = errdom.err(t2, T, {"c%d" % j: "?" for j in range(len(detail))})
+                                bounds.append(b)
+                            if bounds and all(b is not None for b in bounds):
+                                worst = max(bounds)
+                                if worst > 4:
+                                    chk.violated("R4", sig, "each stored component carries a relative error of up to %s u from the normalisation alone: the length is not within four ulps of one" % float(worst), loc)
+                                else:
+                                    chk.holds("R4", sig, "normalisation error <= %s u per component => |length - 1| <= %s u < 4 ulp" % (float(worst), float(worst)), loc)
+                                    norm_worst[T] = max(norm_worst.get(T, 0.0), float(worst))
+                            else:
+                                chk.observe("normalisation error of %s not bounded (numerators not recognisable in the length)" % sig)
+                        except ev.Inconclusive:
+                            pass
                         if f["sname"] == "Cross":
                             chk.holds("R1", sig, "normalisation of a derived vector (cross product)", loc)
                         elif in_order_inputs(detail, ins):
@@ -273,4 +301,5 @@ def run(chk):
     chk.floor("direction construction/mutation/producer paths (x3)", n_paths, 120)
     chk.floor("vector quantities (x3)", n_q, 51)
     chk.coverage["direction_paths"] = n_paths
+    chk.coverage["normalisation_error_bound_u"] = norm_worst
     chk.coverage["vector_quantities"] = n_q
